@@ -25,7 +25,8 @@ Record seen := mkseen {
   e_err : option errk;                                   (* None: the call returned *)
   e_dt : dtv; e_props : pdict; e_holes : Z;              (* receiver afterwards *)
   e_cb : bool; e_cc : bool; e_ca : bool; e_cs : bool;    (* bounds / centroid / area / to_shapely cached *)
-  e_ret : option (bool * dtv * pdict * Z) }.             (* returned shape: is the receiver?, dt, props, holes *)
+  e_ret : option (bool * dtv * pdict * Z);               (* returned shape: is the receiver?, dt, props, holes *)
+  e_obs : bool }.                                        (* the harness then took all observations on the receiver *)
 
 Definition recv_ok (s : kst) (e : seen) : bool :=
   dtv_eqb (dt _ _ _ _ _ s) (e_dt e) && pdict_eqb (props _ _ _ _ _ s) (e_props e) &&
@@ -43,6 +44,12 @@ Definition ret_ok (s1 : kst) (r : ret Z Z Z Z Z) (e : option (bool * dtv * pdict
   | _, _ => false
   end.
 
+(* after recording each step the harness takes all ten observations on the receiver (to compare them
+   with a fresh object's); the model performs the same reads *)
+Definition all_reads : list rd :=
+  [RBounds; RCentroid; RArea; RVolume; RProps; RGeoJson; RWkt; RShapely; RDt; RHoles].
+Definition observe_all (s : kst) : kst := fold_left (fun x r => fst (kstep x (Read r))) all_reads s.
+
 Fixpoint replay (s : kst) (ops : list op) (tr : list seen) : bool :=
   match ops, tr with
   | [], [] => true
@@ -53,7 +60,7 @@ Fixpoint replay (s : kst) (ops : list op) (tr : list seen) : bool :=
       | Ok (rt, _), None => ret_ok s1 rt (e_ret e)
       | Err k, Some k' => errk_eqb k k'
       | _, _ => false
-      end && replay s1 ops' tr'
+      end && replay (if e_obs e then observe_all s1 else s1) ops' tr'
   | _, _ => false
   end.
 
